@@ -715,6 +715,7 @@ static void write_all(int fd, const void * p, size_t n)
 
 // ---------------------------------------------------------------------------------------------
 // zygote side
+static uint64_t g_resource_failures = 0;
 static uint64_t g_allocs_total = 0, g_alloc_failures_total = 0, g_clock_queries_total = 0, g_sim_ns_total = 0;
 static uint64_t g_forks = 0, g_hung = 0, g_yields_total = 0, g_switches_total = 0, g_threads_total = 0, g_threads_max = 0;
 struct Outcome { std::vector<Res> res; std::vector<TraceRec> trace; std::vector<AccessRec> access; bool complete; uint64_t allocs = 0, alloc_failures = 0; };
@@ -761,8 +762,11 @@ static Outcome run_schedule(const Schedule & sc, bool scripted, uint64_t sched_s
     }
   close(pf[0]);
   bool was_incomplete = !o.complete;
-  if (!o.complete) { kill(pid, SIGKILL); ++g_hung; for (auto & r : o.res) r = Res{255, 0, 0}; o.trace.clear(); }
+  if (!o.complete) { kill(pid, SIGKILL); for (auto & r : o.res) r = Res{255, 0, 0}; o.trace.clear(); }
   int st = 0; while (waitpid(pid, &st, 0) < 0 && errno == EINTR) {}
+  // a child that could not even start its caller threads (exit code 3: the environment refused another thread) is a
+  // resource limit of the machine, not a hang of the library: it is counted separately and never stops a worker
+  if (was_incomplete) { if (WIFEXITED(st) && WEXITSTATUS(st) == 3) ++g_resource_failures; else ++g_hung; }
   if (was_incomplete && getenv("HSIM_DEBUG")) fprintf(stderr, "incomplete child: wait status 0x%x (exited=%d code=%d signaled=%d sig=%d) items=%zu clients=%d\n", st, WIFEXITED(st), WIFEXITED(st) ? WEXITSTATUS(st) : -1, WIFSIGNALED(st), WIFSIGNALED(st) ? WTERMSIG(st) : 0, sc.items.size(), sc.clients);
   return o;
   }
@@ -1079,7 +1083,7 @@ static void print_stats(const Stats & st, const char * mode, uint64_t seed0)
                   ",\"seed0\":" + std::to_string(seed0) + ",\"runs\":" + std::to_string(st.runs) +
                   ",\"calls\":" + std::to_string(st.calls) + ",\"forks\":" + std::to_string(g_forks) + ",\"nontrivial_runs\":" + std::to_string(st.nontrivial) +
                   ",\"isolation_checks\":" + std::to_string(st.iso_checks) + ",\"disagreements\":" + std::to_string(st.disagreements) +
-                  ",\"signals_caught\":" + std::to_string(st.signals_seen) + ",\"items_lost\":" + std::to_string(st.lost) + ",\"hung_children\":" + std::to_string(g_hung) +
+                  ",\"signals_caught\":" + std::to_string(st.signals_seen) + ",\"items_lost\":" + std::to_string(st.lost) + ",\"hung_children\":" + std::to_string(g_hung) + ",\"children_refused_threads\":" + std::to_string(g_resource_failures) +
                   ",\"findings\":" + std::to_string(st.findings) + ",\"unstable\":" + std::to_string(st.unstable) + ",\"digest\":\"" + hex(st.digest) +
                   "\",\"fine_executions\":" + std::to_string(st.fine_execs) + ",\"concurrent_segments\":" + std::to_string(st.concurrent_segments) +
                   ",\"concurrent_calls\":" + std::to_string(st.concurrent_calls) + ",\"yield_points\":" + std::to_string(g_yields_total) +
